@@ -25,6 +25,8 @@ REC = 'state::State::is_recording'
 ADD = 'state::State::add_reverse_step'
 PURE_IN_REGION = ('::clone', 'core::mem::drop')
 LOG_READERS = {'state::State::rnext', 'state::State::rnext::{closure#0}', 'state::State::set_recording_enabled',
+               # mark / cut of the log around a build-time evaluation (C02.R3): the length read goes into Context.rl_len only
+               'state::State::context_open', 'state::State::context_open::{closure#0}', 'state::State::context_close',
                'state::State::is_recording', 'state::State::add_reverse_step', '<state::State as core::clone::Clone>::clone',
                '<state::State as core::default::Default>::default'}
 
@@ -293,3 +295,24 @@ def run(rep, facts, tier):
                 why = 'on Err the saved context is popped and restored before the error is returned (built, failed at run: halted, not rolled back)'
         rep.add('C15.R2', 'C15.R2:eval:failed-run-leaves-context-like-compile+run', ok, why, cc.name, t.get('at'))
     rep.floor('C15.R2 Eval-mode run() in context_close', n_run, 1)
+
+    # a user-defined immediate word is run at build time with run(): the frame it returns into must make the VM stop (return
+    # address = end of the code), otherwise run() carries on with the half-built program of the current source - code that
+    # eval keeps "already executed" and compile later runs again - and the ip of the enclosing context is given back afterwards
+    ri = fx.fns.get('state::State::run_immediate')
+    if ri is None:
+        raise MissingAnchor('state::State::run_immediate')
+    riv = V('state::State::run_immediate')
+    rets_to = []
+    for bb in riv.reachable_blocks():
+        for st in riv.blocks[bb]['stmts']:
+            if st['k'] == 'assign' and st['rv']['k'] == 'agg' and st['rv'].get('adt') == 'state::Frame':
+                names = st['rv'].get('fnames', [])
+                if 'return_to' in names:
+                    rets_to.append((expr_str(riv.expr_of_operand(st['rv']['fields'][names.index('return_to')]), -20), st.get('at')))
+    okr = bool(rets_to) and all(('code_origin' in e or ('::len' in e and '.code' in e)) for e, _ in rets_to)
+    rep.add('C15.R2', 'C15.R2:run_immediate:returns-to-end-of-code', okr,
+            'the immediate word returns to the end of the code: run() stops when it is done' if okr else
+            'run_immediate lets the word return to %s: run() then executes the part of the current source that is already compiled, at '
+            'build time (`: x immediate 1 ; 5 x 6` leaves 1 5 5 6 under compile + run, 1 5 6 under eval)' % [e[:40] for e, _ in rets_to],
+            ri.name, (rets_to or [(0, ri.j['span'])])[0][1])
